@@ -769,7 +769,17 @@ pub fn t_pipe(rng: &mut Rng, profile: &'static str, run_seed: u64, miri: bool, t
         for _ in 0..rng.range(0, 2) {
             let mut acts = vec![];
             for _ in 0..rng.range(1, 4) {
-                let id = if rng.chance(1, 2) { prog.add_op(0, Kind::Sync, Disp::None, vec![Step::Touch]) } else { prog.add_op(0, Kind::Desync, Disp::None, vec![Step::Touch]) };
+                // (besides sync/desync: futures of the same object that their caller polls a few times and abandons - such a poll may
+                //  run the pipe's own read job on the caller's thread and leave the queue to be taken over by the pool - detached
+                //  futures and try_sync)
+                let r = rng.below(100);
+                let id = if r < 38 { prog.add_op(0, Kind::Sync, Disp::None, vec![Step::Touch]) }
+                    else if r < 68 { prog.add_op(0, Kind::Desync, Disp::None, vec![Step::Touch]) }
+                    else if r < 84 {
+                        let body = if rng.chance(1, 2) { vec![Step::Touch] } else { let g = prog.new_gate(); vec![Step::Touch, Step::Gate(g), Step::Touch] };
+                        prog.add_op(0, Kind::FutDesync, Disp::PollDrop(rng.range(1, 2) as u8), body) }
+                    else if r < 94 { prog.add_op(0, Kind::FutDesync, Disp::Detach, vec![Step::Touch, Step::Yield, Step::Touch]) }
+                    else { prog.add_op(0, Kind::TrySync, Disp::None, vec![Step::Touch]) };
                 acts.push(TAct::Op(id));
             }
             if mortal { let at = rng.below(acts.len() as u64 + 1) as usize; let _ = at; acts.push(TAct::ReleaseMortal); }
